@@ -37,7 +37,10 @@ where
     let resolved_addr = listener.local_addr()?;
     let (stop_channel, stop_callback) = futures::channel::oneshot::channel::<()>();
     let task_handle = async_rt::task::spawn(async move {
-        let mut stop_callback = stop_callback.fuse();
+        // Shared so that handshakes still in flight stop together with the listener
+        // (both when asked to stop and when the stop handle is dropped).
+        let stop_callback = stop_callback.shared();
+        let mut stop_accepting = stop_callback.clone().fuse();
         loop {
             select! {
                 incoming = listener.accept().fuse() => {
@@ -54,9 +57,16 @@ where
                             )
                         })
                         .map_err(|err| err.into());
-                    async_rt::task::spawn(cback(maybe_accepted));
+                    let handshake = cback(maybe_accepted);
+                    let stop_handshake = stop_callback.clone();
+                    async_rt::task::spawn(async move {
+                        select! {
+                            _ = handshake.fuse() => {},
+                            _ = stop_handshake.fuse() => {},
+                        }
+                    });
                 }
-                _ = stop_callback => {
+                _ = stop_accepting => {
                     break
                 }
             }
